@@ -259,6 +259,45 @@ theorem eleven_transients_exhaust (rnd : Nat → Rat) (outs : List Outcome)
   obtain ⟨h1, c, h2, _⟩ := exhaustion_is_error rnd outs o ho (step 10 (by omega)) ht
   exact ⟨h1, c, h2⟩
 
+/-! ### histories on one `EsMetricsStore`: no document is sent again after the cluster acknowledged it
+
+`runStore rnd emptyStore steps` runs a history of `put` (documents added) and `flush(refresh)` / `close()` calls on one
+store object, with arbitrary scripted fault sequences for the bulk call and for the refresh call of each flush
+(each followed by success).  `acked` is what the cluster acknowledged, in order, with repetitions. -/
+
+/-- **every document is acknowledged at most once**, whatever faults hit the bulk and refresh calls and whichever
+    flushes raised (a refresh that fails for good after an acknowledged bulk does not make the next flush send it again) -/
+theorem acknowledged_at_most_once (rnd : Nat → Rat) (steps : List StoreStep) :
+    (runStore rnd emptyStore steps).1.acked.Nodup := by
+  have h := runStore_inv rnd emptyStore steps rfl
+  unfold StoreInv at h
+  have hn : (List.range (runStore rnd emptyStore steps).1.next).Nodup := List.nodup_range
+  rw [← h] at hn
+  exact (List.nodup_append.mp hn).1
+
+/-- nothing is lost and nothing is both acknowledged and still buffered: the documents added so far are exactly
+    the acknowledged ones followed by the buffered ones -/
+theorem documents_accounted_for (rnd : Nat → Rat) (steps : List StoreStep) :
+    (runStore rnd emptyStore steps).1.acked ++ (runStore rnd emptyStore steps).1.buffer
+      = List.range (runStore rnd emptyStore steps).1.next :=
+  runStore_inv rnd emptyStore steps rfl
+
+/-- … so once the buffer is empty (after a flush whose bulk call did not raise) every document added so far has
+    been acknowledged exactly once -/
+theorem all_acknowledged_exactly_once_when_flushed (rnd : Nat → Rat) (steps : List StoreStep)
+    (h : (runStore rnd emptyStore steps).1.buffer = []) :
+    (runStore rnd emptyStore steps).1.acked = List.range (runStore rnd emptyStore steps).1.next := by
+  have := documents_accounted_for rnd steps
+  rw [h] at this
+  simpa using this
+
+/-- a flush leaves the buffer empty unless its bulk call raised — then nothing was acknowledged and nothing dropped -/
+theorem flush_empties_buffer_unless_bulk_raised (rnd : Nat → Rat) (s : Store) (refresh : Bool) (bulk refr : List Outcome) :
+    (flushStep rnd s refresh bulk refr).1.buffer = [] ∨
+    ((flushStep rnd s refresh bulk refr).2.err.isSome = true ∧ (flushStep rnd s refresh bulk refr).2.runs.length = 1 ∧
+      (flushStep rnd s refresh bulk refr).1.buffer = s.buffer ∧ (flushStep rnd s refresh bulk refr).1.acked = s.acked) :=
+  flushStep_buffer rnd s refresh bulk refr
+
 /-! ### every store operation is routed through `guarded`; constants as stated (generated table) -/
 
 /-- a method is guarded when it hands its client call to `guarded` itself, or delegates to a method that does,
@@ -301,5 +340,13 @@ example : Transient (.bulk [some 429, some 503]) := by
 example : FollowedByAnother (guarded z [.connTimeout, .success 1]) 0 := Or.inl (by decide +kernel)
 example : backoff z false 0 3 = [.call, .sleep (pause 0 0), .call, .sleep (pause 1 0), .call] := by decide +kernel
 example : pause 3 (1/2) = 17/2 := by decide +kernel
+-- two documents, the bulk is acknowledged, the refresh fails for good (not found), one more document, close:
+-- the first two documents are not sent again
+example : (runStore z emptyStore [.put 2, .flush true [] [.api 404], .put 1, .flush true [.connTimeout] []]).1
+    = ⟨[], [0, 1, 2], 3, 5⟩ := by decide +kernel
+example : ((runStore z emptyStore [.put 2, .flush true [] [.api 404]]).2.map (·.err)) = [none, some (.rallyError (.apiError 404))] := by
+  decide +kernel
+-- a bulk that fails for good keeps the documents for the next flush
+example : (runStore z emptyStore [.put 2, .flush false [.authn] [], .flush false [] []]).1.acked = [0, 1] := by decide +kernel
 
 end C17
